@@ -3,11 +3,11 @@ Proof: props/C16.v over model/Cluster.v (planner) and model/ClusterLTS.v (Run-lo
 Tie: check A (planner, differential through the verif export shim) and check B (real Runner with
 mock servers injected through the shim; observable traces fed to the extracted acceptor).
 
-Known finding (F9): the planner files the old instance of a restarted server under the derived key
-id+":stop"; with ids x and x+":stop" both in play the key collides.  Every failure of the property
-on an input whose ids contain such a pair AND whose behaviour the (faithful) model predicts is
-reported under the one canonical key  id-collision:x/x:stop  (literally; one known_findings.txt
-line covers every colliding pair).  Anything else gets its own key."""
+F9 (repaired in /repo by dec72e6): the planner filed the old instance of a restarted server under the
+derived key id+":stop"; with ids x and x+":stop" both in play the key collided and an entry was lost.
+The model is of the repaired code (Cluster.repaired = true: the derived key is extended until unused);
+the old witnesses stay in corpus/C16 as regressions and must be accepted with the property holding.
+The legacy behaviour is refuted in props/C16.v (C16_*_legacy_refuted) and is one of the seeded mutants."""
 import hashlib
 import json
 import os
@@ -22,7 +22,6 @@ GO = ["cluster"]
 PROP = "props/C16.v"
 PROOFS = ["proofs/ClusterPlan.v", "proofs/ClusterRun.v", "proofs/ClusterInv.v", "proofs/ClusterStep.v",
           "proofs/ClusterMain.v", "model/Cluster.v", "model/ClusterLTS.v", "lib/LTS.v"]
-KEY_COLLISION = "id-collision:x/x:stop"
 HOOK = "runnables/httpcluster/verif_export.go"
 SFX = ":stop"
 
@@ -85,7 +84,7 @@ def describe_build(cur, des, res):
     return "current=%s desired=%s plan=%s" % (ents(cur), ents(des), ents(res))
 
 
-def handle_planner(run, builds, known_samples):
+def handle_planner(run, builds):
     for line in builds[:400]:
         t = line.split("\t")
         inmodel, planok, coll = t[1].endswith("true"), t[2].endswith("true"), t[3][5:]
@@ -94,16 +93,10 @@ def handle_planner(run, builds, known_samples):
                    "in_model_result_set": inmodel, "plan_ok": planok, "readable": describe_build(cur, des, res),
                    "how": "build/bin/cluster -mode planner-corpus -file <file with corpus_line> | build/bin/cluster_model planner"}
         if not planok:
-            if inmodel and coll != "-":
+            if coll != "-":
                 payload["colliding_pair"] = [unx(coll), unx(coll) + SFX]
-                if len(known_samples) < 4:
-                    known_samples.append(payload)
-                run.violation(KEY_COLLISION, payload,
-                              "buildPendingEntries loses an entry when ids %r and %r are both in play (derived stop key collides): %s"
-                              % (unx(coll), unx(coll) + SFX, payload["readable"]))
-            else:
-                run.violation("plan:" + h8(cur + des + res), payload,
-                              "buildPendingEntries returned a plan that does not converge: " + payload["readable"])
+            run.violation("plan:" + h8(cur + des + res), payload,
+                          "buildPendingEntries returned a plan that does not converge: " + payload["readable"])
         elif not inmodel:
             run.violation("corr-planner:" + h8(cur + des + res),
                           dict(payload, theorem="correspondence A (build_pending vs buildPendingEntries)"),
@@ -256,7 +249,7 @@ def accept_traces(traces, fuel=20000):
     return verdict, summ, p.returncode == 0
 
 
-def runner_leg(run, args, stats, samples, known_samples, timeout=1500):
+def runner_leg(run, args, stats, samples, timeout=1500):
     scripts, traces, problems = run_batch(args, timeout)
     # runs in which the process stalled longer than the readiness deadline prove nothing: discarded
     stalled = [n for n, (d, toks) in traces.items() if "TIMING" in toks]
@@ -324,14 +317,9 @@ def runner_leg(run, args, stats, samples, known_samples, timeout=1500):
                    "property_failures": ["%s: %s" % b for b in bad],
                    "how": "build/bin/cluster -mode runner -script '<script>'"}
         if bad:
-            if v == "ACCEPT" and col:
+            if col:
                 payload["colliding_pair"] = [col[0], col[0] + SFX]
-                if len(known_samples) < 4:
-                    known_samples.append(payload)
-                run.violation(KEY_COLLISION, payload,
-                              "cluster with ids %r and %r: %s" % (col[0], col[0] + SFX, bad[0][1]))
-            else:
-                run.violation("runner:%s:%s" % (bad[0][0], h8(sc)), payload, "cluster runner: " + bad[0][1])
+            run.violation("runner:%s:%s" % (bad[0][0], h8(sc)), payload, "cluster runner: " + bad[0][1])
         elif v in ("REJECT", "BADTRACE", "MISSING"):
             if confirmed.get(name, 2) >= 1:
                 run.violation("corr-runner:" + h8(sc), dict(payload, theorem="correspondence B (ClusterLTS acceptor)",
@@ -372,7 +360,7 @@ def run(run):
     if not builds_ok(run):
         return
     quick = run.tier == "quick"
-    pstats, known_samples, samples = {}, [], []
+    pstats, samples = {}, []
     builds, mism = [], []
     jobs = []
     corpus = os.path.join(C.VERIF, "corpus", "C16", "planner.txt")
@@ -392,20 +380,23 @@ def run(run):
             mism += m
             if not ok:
                 run.violation("harness-failed", {"out": tail}, "C16 planner harness or model driver failed to run", True)
-    handle_planner(run, builds, known_samples)
-    # F9 must still be exhibited by the corpus witness; otherwise the known finding is stale
-    stale = pstats.get("planfail_known", 0) == 0
+    handle_planner(run, builds)
+    # the F9 witnesses (corpus) are regressions: they must be accepted with the property holding
+    wstats = {}
+    if os.path.exists(corpus):
+        wb, wm, wok, _ = planner_stream(["-mode", "planner-corpus", "-file", corpus], wstats)
+    f9 = {k: wstats.get(k, 0) for k in ("builds", "colliding", "notinmodel", "planfail", "opmismatch")}
 
     rstats = {}
     rcorpus = os.path.join(C.VERIF, "corpus", "C16", "runner.txt")
     if os.path.exists(rcorpus):
-        runner_leg(run, ["-file", rcorpus, "-jobs", "4"], rstats, samples, known_samples)
+        runner_leg(run, ["-file", rcorpus, "-jobs", "4"], rstats, samples)
     n = 1600 if quick else 24000
     chunk = 800 if quick else 3000
     done = 0
     while done < n:
         runner_leg(run, ["-family", "all", "-n", str(min(chunk, n - done)), "-seed", str(run.seed * 100 + done // chunk),
-                         "-jobs", str(min(C.NPROC, 12))], rstats, samples, known_samples)
+                         "-jobs", str(min(C.NPROC, 12))], rstats, samples)
         done += chunk
     handle_planner_ops(run, mism)
     distinct = len(rstats.pop("distinct_traces", set()))
@@ -419,24 +410,21 @@ def run(run):
                 "plus 1/16 of the pool of 5 in the quick tier -- plus random sequences of maps over a 16-id pool) + check B: "
                 "distinct observable traces of the real Runner (after removing bookkeeping tokens); trivial cases "
                 "(empty maps, no server ever started) are included in the counts",
-        "samples": samples[:5] + known_samples[:2],
+        "samples": samples[:5],
         "traces_validated_against_impl": rstats.get("accepted", 0),
         "planner": {k: pstats.get(k, 0) for k in (
             "n", "builds", "distinct_builds", "colliding", "multi", "notinmodel", "planfail", "planfail_known",
             "opmismatch", "parse", "hyg_multi", "fullset", "new", "actions", "commit", "setrt", "clrrt", "remove", "count")},
         "runner": rstats,
-        "known_finding_witness_still_fails": not stale,
+        "f9_regression_witness": f9,
     })
-    if stale:
-        run.notes.append("the F9 witness (corpus/C16/planner.txt) no longer fails on the implementation: the known finding "
-                         "%s is stale; switch Cluster.repaired to true and drop the finding" % KEY_COLLISION)
     if rstats.get("inconclusive", 0) * 100 > max(1, rstats.get("traces", 0)):
         run.notes.append("more than 1% of the traces were inconclusive (acceptor fuel)")
     run.assumptions += [
         "child servers behave like the mocks: Run returns when its context is cancelled or Stop was called; Stop returns",
         "a ready server answers IsRunning()=true within the readiness deadline (40 ms in the harness, polled every 5 ms)",
-        "C16_converge / C16_count / C16_none_leaked are claimed under id hygiene (no id equals another id followed by "
-        "\":stop\"); without it they are refuted (C16_*_refuted) -- known finding " + KEY_COLLISION,
+        "the theorems are about the repaired planner (fx = true, /repo dec72e6) and hold for arbitrary ids; the legacy "
+        "planner is refuted (C16_*_legacy_refuted)",
     ]
 
 
